@@ -1281,6 +1281,7 @@ func (ea *functionAnalysisState) RunForwardIterative() error {
 	if len(ea.function.Blocks) == 0 {
 		return nil
 	}
+	verifhook.At("escape.RunForwardIterative.enter")
 	for len(ea.worklist) > 0 {
 		verifhook.At("escape.RunForwardIterative.step")
 		verifReorderBlocks(ea)
